@@ -195,6 +195,11 @@ def run_index(seed, tier, i, tmpdir):
     return res
 
 
+def discard_result(i, reason):
+    return {"index": i, "violations": [], "digest": "discard:died", "counters": {"discard.run-died": 1}, "coverage": [],
+            "steps": 1, "solves": 0, "discards": 1, "probes": {}, "kind": "history"}
+
+
 def rebuild_run(seed, tier, i, tmpdir):
     return gen_run(seed, tier, i)
 
